@@ -54,10 +54,7 @@ CC_MEMBERS = sorted(int(c) for c in ConditionCode)
 
 
 def _enum(cls, v):
-    try:
-        return cls(v)
-    except ValueError:
-        return v
+    return core.enum_or_int(cls, v)
 
 
 def _fault(l):
